@@ -38,7 +38,14 @@ Fresh == [realCalled |-> {},     \* kinds for which a Set with a real provider h
           nreg |-> <<>>,         \* callback -> registrations with an SDK (ever, any SDK)
           active |-> <<>>,       \* callback -> registrations minus SDK unregistrations
           invoked |-> <<>>,      \* callback -> invocations during the final collection
-          final |-> FALSE]       \* the final collection is running
+          final |-> FALSE,       \* the final collection is running
+          refused |-> {},        \* names (instrument = callback = owner) the delegate SDK refused (scripted fault)
+          nref |-> <<>>,         \* what/obj/sdk -> number of refusals
+          watch |-> FALSE,       \* a recording error handler is installed
+          pend |-> {},           \* messages of refusals made during a hand-over (inside Set)
+          handled |-> {},        \* messages the error handler received
+          owner |-> <<>>,        \* observation value -> the invocation that made it
+          arrived |-> {}]        \* observation values that arrived at some Observer
 
 Put(f, k, v) == [x \in (DOMAIN f) \cup {k} |-> IF x = k THEN v ELSE f[x]]
 Get(f, k) == IF k \in DOMAIN f THEN f[k] ELSE 0
@@ -48,7 +55,8 @@ Poss(m, k) == IF k \in DOMAIN m.poss THEN m.poss[k] ELSE {"dflt"}
 SeqToSet(s) == {s[i] : i \in 1..Len(s)}
 
 (* callbacks that must be registered with an SDK exactly once by now *)
-Owed(m) == IF "mp" \in m.realRet THEN m.regRet \ m.unregCalled ELSE {}
+(* a refusal by the delegate affects the refused item only (a callback whose instrument was refused included) *)
+Owed(m) == IF "mp" \in m.realRet THEN (m.regRet \ m.unregCalled) \ m.refused ELSE {}
 NotDelegated(m) == {[kind |-> "callback-not-delegated", cb |-> cb] : cb \in {c \in Owed(m) : Get(m.nreg, c) # 1}}
 
 (* something arrived at SDK `sdk` through handle `h` (a use id or a callback) of kind k: a handle of the default
@@ -80,7 +88,9 @@ Step(m, e) ==
                             !.ovl = @ \ {e.proc},
                             !.poss = IF e.proc \in m.ovl THEN @ ELSE Put(@, e.kind, {e.val}),
                             !.realRet = IF e.val # "dflt" THEN @ \cup {e.kind} ELSE @] IN
-         <<n, NotDelegated(n)>>
+         <<n, NotDelegated(n)
+              \cup (IF e.kind = "mp" /\ e.val # "dflt" /\ m.watch /\ ~(m.pend \subseteq m.handled)
+                    THEN {[kind |-> "refusal-not-reported", n |-> Cardinality(m.pend \ m.handled)]} ELSE {})>>
     [] e.ev = "Call" /\ e.op = "Get" ->
          <<[m EXCEPT !.gets = Put(@, e.kind \o "/" \o e.proc, [kind |-> e.kind, ok |-> Poss(m, e.kind)])], {}>>
     [] e.ev = "Ret" /\ e.op = "Get" ->
@@ -100,13 +110,13 @@ Step(m, e) ==
            \cup (IF e.id \in m.reached THEN {[kind |-> "delivered-twice", sig |-> e.kind, id |-> e.id]} ELSE {})
            \cup (IF e.kind \notin m.realCalled THEN {[kind |-> "delivered-before-install", sig |-> e.kind, id |-> e.id]} ELSE {})>>
     [] e.ev = "Ret" /\ e.op = "Use" ->
-         <<m, IF e.id \in m.must /\ e.id \notin m.reached
+         <<m, IF e.id \in m.must /\ e.id \notin m.reached /\ e.obj \notin m.refused
               THEN {[kind |-> "lost-after-set", sig |-> e.kind, id |-> e.id, obj |-> e.obj, via |-> e.via,
                      class |-> IF e.obj \in DOMAIN m.class THEN m.class[e.obj] ELSE "before"]}
               ELSE {}>>
     [] e.ev = "Call" /\ e.op = "Register" -> <<[m EXCEPT !.via = Put(@, e.cb, e.via)], {}>>
     [] e.ev = "Ret" /\ e.op = "Register" ->
-         IF e.err # "" THEN <<m, {[kind |-> "register-error", cb |-> e.cb]}>>
+         IF e.err # "" THEN <<m, IF e.cb \in m.refused THEN {} ELSE {[kind |-> "register-error", cb |-> e.cb]}>>
          ELSE LET n == [m EXCEPT !.regRet = @ \cup {e.cb}] IN <<n, NotDelegated(n)>>
     [] e.ev = "SdkCbRegistered" ->
          LET r == Arrive(m, "mp", e.cb, e.sdk) IN
@@ -137,6 +147,24 @@ Step(m, e) ==
                   cb \in {c \in m.unregRet : Get(m.invoked, c) > 0}}
              \cup {[kind |-> "collected-sum-differs", inst |-> r.inst, n |-> r.n, sdk |-> Get(m.got, r.inst)] :
                   r \in {x \in SeqToSet(e.sums) : x.n >= 0 /\ x.name \notin m.regRet /\ x.n # Get(m.got, x.inst)}}>>
+    [] e.ev = "Watch" -> <<[m EXCEPT !.watch = TRUE], {}>>
+    [] e.ev = "SdkRefused" ->
+         LET k == e.what \o "/" \o e.obj \o "/" \o e.sdk IN
+         <<[m EXCEPT !.refused = @ \cup {e.obj}, !.nref = Put(@, k, Get(@, k) + 1),
+                     !.pend = IF e.handover THEN @ \cup {e.msg} ELSE @],
+           IF Get(m.nref, k) >= 1 /\ e.obj # "?"
+           THEN {[kind |-> "refused-item-resubmitted", what |-> e.what, obj |-> e.obj, n |-> Get(m.nref, k) + 1]} ELSE {}>>
+    [] e.ev = "Handled" -> <<[m EXCEPT !.handled = @ \cup {e.msg}], {}>>
+    (* invocations of a registered callback (by a collection of the SDK or by the harness as an SDK may do it:
+       overlapping, each with its own Observer): what an invocation observes arrives at ITS Observer *)
+    [] e.ev = "ObsCall" -> <<[m EXCEPT !.owner = Put(@, e.val, e.inv)], {}>>
+    [] e.ev = "Observed" ->
+         <<[m EXCEPT !.arrived = @ \cup {e.val}],
+           (IF e.val \in DOMAIN m.owner /\ m.owner[e.val] # e.observer
+              THEN {[kind |-> "observation-cross-delivered", inv |-> m.owner[e.val], observer |-> e.observer]} ELSE {})
+           \cup (IF e.inst = "?" THEN {[kind |-> "observation-not-unwrapped", observer |-> e.observer]} ELSE {})>>
+    [] e.ev = "ObsRet" ->
+         <<m, IF e.val \notin m.arrived THEN {[kind |-> "observation-lost", inv |-> e.inv, cb |-> e.cb]} ELSE {}>>
     [] e.ev = "Timeout" ->
          <<m, IF e.proven THEN {[kind |-> "deadlock", sites |-> e.sites]} ELSE {}>>
     [] e.ev = "Panic" ->
